@@ -642,10 +642,16 @@ def model_check(ctx, ext, known, quick):
             ("two_monitors", {"monitors": ["M1", "M2"], "levels": {"M1": ["pm"], "M2": ["node"]}, "crash": ALL_PHASES}),
             ("reclaim", {"cleaners": ["C1"], "crash": ALL_PHASES, "ccrash": True}),
             ("mon_cleaner", {"monitors": ["M1"], "cleaners": ["C1"], "levels": {"M1": ["pm"]}, "crash": ALL_PHASES,
-                             "ccrash": True, "reach": True}),
+                             "ccrash": True}),
+            # triples (guard step, monitor step, cleaner step) with crashes of guard and cleaner, for the replay
+            ("triples", {"monitors": ["M1"], "cleaners": ["C1"], "levels": {"M1": ["pm"]}, "crash": ["running", "shutdown"],
+                         "ccrash": True, "after": True, "reach": True}),
             ("cleaners2", {"cleaners": ["C1", "C2"], "crash": ALL_PHASES, "ccrash": True}),
-            ("cleaners3", {"cleaners": ["C1", "C2", "C3"], "crash": ["running"], "ccrash": False, "after": True,
-                           "drop": False}),
+            # 3 and 4 concurrent cleaners: random behaviours (TLC -simulate), the exhaustive instances are too large
+            ("cleaners3", {"cleaners": ["C1", "C2", "C3"], "crash": ["running"], "ccrash": True, "after": True,
+                           "drop": False, "simulate": "num=3000"}),
+            ("cleaners4", {"cleaners": ["C1", "C2", "C3", "C4"], "crash": ["running"], "ccrash": False, "after": True,
+                           "drop": False, "simulate": "num=2000"}),
         ]
     witnesses, reach, failed, unpriv_only = {}, {}, [], {}
 
@@ -657,7 +663,8 @@ def model_check(ctx, ext, known, quick):
             want_reach = bool(cfgd.get("reach"))
             d = write_mc(ctx, name, ext, "ProcessState", c, INVS + (["Reach"] if want_reach else []),
                          [list(s) for s in known])
-            res = vp.tlc(d, name, workers=1 if want_reach else 4, timeout=900 if quick else 3000, libs=["process"])
+            res = vp.tlc(d, name, workers=1 if want_reach else 4, timeout=900 if quick else 3000, libs=["process"],
+                         simulate=cfgd.get("simulate"), extra=(["-depth", "200", "-seed", str(ctx.seed)] if cfgd.get("simulate") else None))
             out["runs"].append((f"ProcessState[{cname}{' all signatures' if attempt else ''}]", res))
             if res.timed_out:
                 raise vp.ToolError(f"TLC timed out on {name}")
@@ -674,9 +681,11 @@ def model_check(ctx, ext, known, quick):
             need = ["GCreateStep"] + (["GDropStep"] if cfgd.get("drop", True) else []) \
                 + (["GCrash"] if cfgd.get("crash") else []) \
                 + (["MonStep"] if cfgd.get("monitors") else []) \
-                + (["CStateStep", "CAcqStep", "CDropStep", "CFailStep"] if cfgd.get("cleaners") else []) \
+                + (["CStateStep", "CAcqStep", "CDropStep"] if cfgd.get("cleaners") else []) \
+                + (["CFailStep"] if len(cfgd.get("cleaners", [])) > 1 and not cfgd.get("monitors") else []) \
                 + (["CCrash"] if cfgd.get("ccrash") else [])
-            vp.check_action_coverage(res, need, name)
+            if not cfgd.get("simulate"):
+                vp.check_action_coverage(res, need, name)
             break
         return out
 
@@ -759,8 +768,8 @@ def run(ctx):
         npos[cname] = len(keys)
         variants = [("pm", "M"), ("pm", "G"), ("cal", "G")] if quick else [("pm", "M"), ("pm", "G"), ("cal", "M"), ("cal", "G")]
         if cfgd.get("cleaners"):
-            if len(keys) > 5000:
-                keys = rng.sample(keys, 5000)
+            if len(keys) > 4000:
+                keys = rng.sample(keys, 4000)
             variants = [("pm", "M"), ("pm", "G")]
         for i, key in enumerate(keys):
             for (lvl, cont) in variants:
@@ -974,7 +983,7 @@ def node_level(ctx):
     jobs = []
     for when, gmax in (("shutdown", 10), ("startup", 12)):
         for g in range(0, gmax):
-            for m in range(0, 13):
+            for m in range(0, 17):      # 3 listing stats + 12 calls of state(): up to "the observer ran to completion"
                 jobs.append((f"{when[:2]}-{g}-{m}", when, g, m))
     runs = []
     with concurrent.futures.ThreadPoolExecutor(max_workers=10) as ex:
@@ -1029,7 +1038,7 @@ def replay(ctx, path):
     body = json.load(open(path))
     print(json.dumps({k: body.get(k) for k in ("what", "signature", "schedule", "levels", "real_interleaving")}, indent=1))
     sched = body.get("model_schedule") or body.get("schedule")
-    if sched and body.get("levels") and isinstance(sched[0], list):
+    if sched and body.get("levels") is not None and isinstance(sched[0], list):
         vp.cargo_build(["drv-procstate"])
         lv = {m: (l if l != "node" else "cal") for m, l in body["levels"].items()}
         sched = [e for e in sched if e[1] not in ("scandir", "stat")]
